@@ -18,6 +18,8 @@ import (
 	"bytes"
 	"encoding/json"
 	"fmt"
+	"sync/atomic"
+	"time"
 	"math/rand"
 	"os"
 	"runtime"
@@ -129,7 +131,7 @@ func c16Render(it c16Item, mode string) []byte {
 	case "bang":
 		return []byte{'!'}
 	case "etx":
-		return []byte{3}
+		return append(c16B(it.B), 3) // B: an unfinished escape sequence the Ctrl-C falls into
 	default:
 		return c16B(it.B)
 	}
@@ -252,46 +254,84 @@ func c16Class(err error, b *trzszBuffer, sent []byte) string {
 	return "err"
 }
 
+// c16Guard runs fn; a reader that is still blocked after 5 s (it swallowed even the sentinel Ctrl-C)
+// is woken through the buffer's stop channel and the run counts as "hang".
+func c16Guard(b *trzszBuffer, fn func()) bool {
+	var hung atomic.Bool
+	wait := 5 * time.Second
+	if c16Hangs.Load() >= 4 {
+		wait = 20 * time.Millisecond // the generous wait has established the hang several times already
+	}
+	tm := time.AfterFunc(wait, func() {
+		hung.Store(true)
+		b.stopBuffer()
+	})
+	fn()
+	tm.Stop()
+	if hung.Load() {
+		c16Hangs.Add(1)
+	}
+	return hung.Load()
+}
+
+var c16Hangs atomic.Int32
+
+func c16Hang(res []c16Res) []c16Res {
+	if n := len(res); n > 0 && res[n-1].Res != "ok" {
+		res[n-1] = c16Res{Res: "hang", Line: []int{}}
+		return res
+	}
+	return append(res, c16Res{Res: "hang", Line: []int{}})
+}
+
 // c16ExecLine: nreads calls of the real recvLine on a fresh transfer.
 func c16ExecLine(mode, etyp string, chunks [][]byte, nreads int) []c16Res {
 	t := c16NewTransfer(mode)
-	defer c16Pool[mode].Put(t)
 	sent := c16Feed(func(c []byte) { t.addReceivedData(c, false) }, chunks)
 	var res []c16Res
-	for k := 0; k < nreads; k++ {
-		line, err := t.recvLine(etyp, false, nil)
-		cl := c16Class(err, t.buffer, sent)
-		r := c16Res{Res: cl, Line: []int{}}
-		if cl == "ok" {
-			r.Line = vInts(line)
+	if c16Guard(t.buffer, func() {
+		for k := 0; k < nreads; k++ {
+			line, err := t.recvLine(etyp, false, nil)
+			cl := c16Class(err, t.buffer, sent)
+			r := c16Res{Res: cl, Line: []int{}}
+			if cl == "ok" {
+				r.Line = vInts(line)
+			}
+			res = append(res, r)
+			if cl != "ok" {
+				break
+			}
 		}
-		res = append(res, r)
-		if cl != "ok" {
-			break
-		}
+	}) {
+		return c16Hang(res) // the transfer object is not reused
 	}
+	c16Pool[mode].Put(t)
 	return res
 }
 
 // c16ExecCheck: recvCheck; result "ok" carries the payload, "typ:<t>" a line of another type.
 func c16ExecCheck(mode, etyp string, chunks [][]byte, nreads int) []c16Res {
 	t := c16NewTransfer(mode)
-	defer c16Pool[mode].Put(t)
 	sent := c16Feed(func(c []byte) { t.addReceivedData(c, false) }, chunks)
 	var res []c16Res
-	for k := 0; k < nreads; k++ {
-		buf, err := t.recvCheck(etyp, false, nil)
-		if err == nil {
-			res = append(res, c16Res{Res: "ok", Line: c16Ints(buf)})
-			continue
+	if c16Guard(t.buffer, func() {
+		for k := 0; k < nreads; k++ {
+			buf, err := t.recvCheck(etyp, false, nil)
+			if err == nil {
+				res = append(res, c16Res{Res: "ok", Line: c16Ints(buf)})
+				continue
+			}
+			if te, ok := err.(*trzszError); ok && te.errType != "" {
+				res = append(res, c16Res{Res: "typ:" + te.errType, Line: []int{}})
+				continue
+			}
+			res = append(res, c16Res{Res: c16Class(err, t.buffer, sent), Line: []int{}})
+			break
 		}
-		if te, ok := err.(*trzszError); ok && te.errType != "" {
-			res = append(res, c16Res{Res: "typ:" + te.errType, Line: []int{}})
-			continue
-		}
-		res = append(res, c16Res{Res: c16Class(err, t.buffer, sent), Line: []int{}})
-		break
+	}) {
+		return c16Hang(res)
 	}
+	c16Pool[mode].Put(t)
 	return res
 }
 
@@ -300,29 +340,33 @@ func c16ExecCheck(mode, etyp string, chunks [][]byte, nreads int) []c16Res {
 // to the expected line.
 func c16ExecRelay(mode, etyp string, chunks [][]byte, nreads int) []c16Res {
 	b := c16NewBuffer()
-	defer c16Pool["relay"].Put(b)
 	sent := c16Feed(b.addBuffer, chunks)
 	var res []c16Res
-	for k := 0; k < nreads; k++ {
-		var s string
-		var err error
-		if mode == "win" {
-			s, err = recvStringForWindows(b, etyp)
-		} else {
-			s, err = recvStringFromBuffer(b, etyp, true)
+	if c16Guard(b, func() {
+		for k := 0; k < nreads; k++ {
+			var s string
+			var err error
+			if mode == "win" {
+				s, err = recvStringForWindows(b, etyp)
+			} else {
+				s, err = recvStringFromBuffer(b, etyp, true)
+			}
+			if err == nil {
+				res = append(res, c16Res{Res: "ok", Line: c16Ints(s)})
+				continue
+			}
+			cl := c16Class(err, b, sent)
+			if cl == "err" {
+				res = append(res, c16Res{Res: "err:" + c16ErrHead(err), Line: []int{}})
+				continue
+			}
+			res = append(res, c16Res{Res: cl, Line: []int{}})
+			break
 		}
-		if err == nil {
-			res = append(res, c16Res{Res: "ok", Line: c16Ints(s)})
-			continue
-		}
-		cl := c16Class(err, b, sent)
-		if cl == "err" {
-			res = append(res, c16Res{Res: "err:" + c16ErrHead(err), Line: []int{}})
-			continue
-		}
-		res = append(res, c16Res{Res: cl, Line: []int{}})
-		break
+	}) {
+		return c16Hang(res)
 	}
+	c16Pool["relay"].Put(b)
 	return res
 }
 
@@ -812,6 +856,23 @@ func (g *c16Gen) pos() c16Item {
 	return c16Csi(fmt.Sprintf("%d;%d", 1+g.rng.Intn(60), 1+g.rng.Intn(240)), 'H')
 }
 
+// etx: a Ctrl-C; in the Windows framing half of them fall into an unfinished escape sequence
+func (g *c16Gen) etx() c16Item {
+	if g.mode != "win" || g.p(50) {
+		return c16I("etx")
+	}
+	switch g.rng.Intn(4) {
+	case 0:
+		return c16I("etx", 0x1b)
+	case 1:
+		return c16I("etx", 0x1b, '[')
+	case 2:
+		return c16I("etx", append([]int{0x1b, '['}, c16Ints(fmt.Sprintf("%d;%d", 1+g.rng.Intn(60), 1+g.rng.Intn(200)))...)...)
+	default:
+		return c16I("etx", append([]int{0x1b, '['}, c16Ints(fmt.Sprintf("%d", g.rng.Intn(40)))...)...)
+	}
+}
+
 func (g *c16Gen) pad() c16Item { return c16I("pad", []int{32, 8, 9}[g.rng.Intn(3)]) }
 func (g *c16Gen) nl() c16Item {
 	if g.p(70) {
@@ -967,7 +1028,7 @@ func (g *c16Gen) line(etyp, ltyp, payload string, density int, etxAt int) c16Wan
 	}
 	for i := 0; i < len(full); i++ {
 		if i == etxAt {
-			g.add(c16I("etx"))
+			g.add(g.etx())
 			want.Res = "int"
 			return want
 		}
@@ -987,7 +1048,7 @@ func (g *c16Gen) line(etyp, ltyp, payload string, density int, etxAt int) c16Wan
 		g.add(c16I("let", int(full[i])))
 	}
 	if etxAt >= len(full) {
-		g.add(c16I("etx"))
+		g.add(g.etx())
 		want.Res = "int"
 		return want
 	}
